@@ -81,6 +81,8 @@ func c06Labels(s ttxStream) (bool, []string) {
 	add(s.Designation == 1, "x28-designation-of-selected-magazine")
 	add(s.Designation == 2, "m29-designation-of-selected-magazine")
 	add(s.Designation == 3, "m29-and-x28-designations-disagree")
+	add(s.Designation == 4, "m29-before-first-header-selects-second-latin-row")
+	add(s.Designation == 5, "m29-before-every-header-selects-second-latin-row")
 	return len(s.Instances) > 0, ls
 }
 
